@@ -865,6 +865,17 @@ where
     pub(crate) fn set_draining(&mut self, is_draining: bool) {
         self.is_draining = is_draining;
     }
+
+    /// Hand every job still waiting in this worker's queue to the discard handler.
+    /// Used when the factory shuts down, so that queued jobs don't vanish silently.
+    pub(crate) fn discard_queued_jobs(&mut self, reason: DiscardReason) {
+        while let Some(mut job) = self.message_queue.pop_front() {
+            self.untrack_pending_key(&job.key);
+            if let Some(handler) = &self.discard_handler {
+                handler.discard(reason.clone(), &mut job);
+            }
+        }
+    }
 }
 
 /// State for the single heartbeat that may be outstanding for a worker.
